@@ -12,7 +12,17 @@ impl Params {
         // - k >= 3 so the encoded solutions have an exact byte length.
         // - k < n, so the collision bit length is at least 1.
         // - n is a multiple of k + 1, so we have an integer collision bit length.
-        if n.is_multiple_of(8) && (k >= 3) && (k < n) && n.is_multiple_of(k + 1) {
+        // - n <= 512, so at least one index fits in a BLAKE2b output.
+        // - the collision bit length is between 8 and 24 bits, which is the range that
+        //   the minimal-encoding expansion (`expand_array`) supports for both hash
+        //   segments and (one bit wider) indices.
+        if n.is_multiple_of(8)
+            && (k >= 3)
+            && (k < n)
+            && n.is_multiple_of(k + 1)
+            && (n <= 512)
+            && (8..=24).contains(&(n / (k + 1)))
+        {
             Some(Params { n, k })
         } else {
             None
